@@ -140,13 +140,90 @@ def run(tier="quick", only_prim=None):
     return out
 
 
+def fanout_child(variant):
+    """one value consumed by six operations whose cotangent contributions do not add associatively in float64 (1e16, 1,
+    -1e16, ...): the gradient is a function of the ORDER in which the backward pass visits the consumers.  That order
+    must be a function of the program alone - not of object addresses, garbage, live closures or failed traces left by
+    earlier calls.  Prints the results of 120 evaluations with different allocation histories between them."""
+    import gc
+    import random
+    import numpy as onp
+    import autograd.numpy as np
+    from autograd import grad, make_vjp
+
+    warnings.filterwarnings("ignore")
+    coef = [1e16, 1.0, -1e16, 3.5, 7e15, -7e15, 0.125]
+
+    def f(x):
+        parts = [np.sin(x) * 0.0 + x * c for c in coef]
+        tot = parts[0]
+        for p_ in parts[1:]:
+            tot = tot + p_
+        return np.sum(tot)
+
+    def g2(x):
+        y = np.exp(x * 0.0) * x
+        return np.sum(y * 1e16 + y * 1.0 - y * 1e16 + y * 2.5 + np.cos(y) * 0.0)
+
+    rng = random.Random(int(variant))
+    keep = []
+    res = []
+    for i in range(120):
+        r = rng.random()
+        if r < 0.3:
+            keep.append(make_vjp(lambda z: np.tanh(z) * z)(onp.ones(rng.randint(1, 5)))[0])  # a live pullback
+        elif r < 0.5:
+            try:
+                grad(lambda z: np.linalg.svd(z)[0][0, 0])(onp.eye(2) + 0.1)  # a differentiation that fails in the backward pass
+            except Exception:
+                pass
+        elif r < 0.7:
+            keep.append([object() for _ in range(rng.randint(1, 200))])
+        elif r < 0.8 and keep:
+            del keep[rng.randrange(len(keep))]
+            gc.collect()
+        x = onp.array([1.0, -2.0, 0.5])
+        res.append([repr(float(v)) for v in grad(f)(x)] + [repr(float(v)) for v in grad(g2)(x)])
+    json.dump(res, sys.stdout)
+
+
+def fanout_order_probe():
+    from concurrent.futures import ThreadPoolExecutor
+    from .. import runner
+
+    def spawn(variant):
+        env = dict(os.environ)
+        env["PYTHONPATH"] = runner.VERIF + os.pathsep + runner.REPO
+        p = subprocess.run([sys.executable, "-m", "vf.props.hist_probe", "fanout", str(variant), "", ""], env=env, capture_output=True, text=True, timeout=600, cwd=runner.VERIF)
+        if p.returncode != 0:
+            raise RuntimeError("fan-out probe child failed: %s" % p.stderr[-300:])
+        return json.loads(p.stdout)
+
+    with ThreadPoolExecutor(4) as ex:
+        runs = list(ex.map(spawn, [1, 2, 3, 4]))
+    allres = [tuple(r) for run_ in runs for r in run_]
+    distinct = sorted(set(allres))
+    r = {"key": "HISTORY backward-pass order | one value with 7 consumers whose contributions do not add associatively: 480 evaluations under different allocation histories (live pullbacks, failed traces, garbage), 4 fresh interpreters",
+         "prim": "order", "paths": len(allres), "queries": 0, "validated": len(allres), "verdicts": {}}
+    if len(distinct) == 1:
+        r["status"], r["detail"] = "holds", ""
+    else:
+        r["status"] = "violation"
+        r["detail"] = "the same gradient call returned %d different float64 results depending on the allocation history, e.g. %s vs %s" % (len(distinct), distinct[0][:3], distinct[1][:3])
+        r["cex"] = {"mode": "history", "prim": "__fanout__", "config": "fanout"}
+        r["validated"] = 0
+    return [r]
+
+
 def replay(prim):
-    rs = run("quick", prim)
+    rs = fanout_order_probe() if prim == "__fanout__" else run("quick", prim)
     bad = [r for r in rs if r["status"] == "violation"]
     for r in bad:
         print(r["detail"])
     return bool(bad)
 
 
-if __name__ == "__main__":
+if __name__ == "__main__" and sys.argv[1] == "fanout":
+    fanout_child(sys.argv[2])
+elif __name__ == "__main__":
     child(sys.argv[1], tuple(sys.argv[2].split(",")), sys.argv[3] or None, sys.argv[4] or None)
